@@ -37,6 +37,24 @@ def gen(rng, n):
             d["NEW_RWND"] = rng.choice([500, 5000, 100000])
         if d.get("RETRY") and d.get("DROP_MASK", 0) >= 64:
             d["DROP_MASK"] &= 63   # a retry token only lives 15 s: do not starve the handshake beyond that
+        if rng.chance(1, 5):
+            # many streams whose stream window is below 1/8 of the connection window, read one at a
+            # time by a slow reader: stream credit and connection credit come back separately
+            k = rng.range(8, 12)
+            d["NBIDI"] = 0
+            d["NUNI"] = k
+            d["MAX_UNI"] = 100
+            d.pop("MAX_BIDI", None)
+            sw = rng.choice([500, 1000])
+            d["STREAM_RWND"] = sw
+            d["RWND"] = k * sw
+            d["STREAM_BYTES"] = sw * rng.choice([2, 3])
+            d["WRITE_CHUNK"] = 100000
+            d["READ_SERIAL"] = rng.choice([30000, 100000])
+            d["LOSS"] = rng.choice([0, 0, 30])
+            d.pop("SEND_WINDOW", None)
+            d.pop("ZERO_RTT", None)
+            d.pop("PACING_BPS", None)
         # keep the transfer within a few hundred round trips of the smallest window
         w = min(d.get("STREAM_RWND", 1 << 40), d.get("RWND", 1 << 40), d.get("SEND_WINDOW", 1 << 40))
         k = 20 if d.get("LOSS", 0) >= 100 else 100
